@@ -71,7 +71,7 @@ def gen_run(rng, stop=None, **over):
                'tol': f2h(rng.choice([1e-8, 1e-3, 1e-1, 10.0])),
                'crit': str(rng.randrange(10)), 'maxnp': str(rng.choice([1, 2, 10])),
                'overwrite': str(rng.randint(0, 1)),
-               'L0': f2h(rng.choice([0.0] * 8 + [1.0] * 4 + [64.0] * 4 + [INF])),
+               'L0': f2h(rng.choice([0.0] * 8 + [1.0] * 4 + [64.0] * 4 + [2.0 ** -8] * 2 + [INF])),
                'Lgf': f2h(rng.choice([0.95, 0.95, 0.95, 0.5, 1.0, 2.0])),
                'Lmax': f2h(rng.choice([1e20, 1e20, 1e20, 256.0, 4.0])),
                'qubtol': f2h(rng.choice([10 * EPS, 10 * EPS, 0.0, 1e-3])),
@@ -105,8 +105,10 @@ def gen_run(rng, stop=None, **over):
 def sweep_ops(rng, exe, n_problems, **over):
     """Exhaustive stop injection: for fixed runs, `stop()` at every event index (1 … T)."""
     ops = []
-    for _ in range(n_problems):
+    for i in range(n_problems):
         kw = dict(maxiter=rng.choice([2, 3, 4]), nanat=0, oot=0, trace=0)
+        if i == 0:      # many initial step-size backtracks: stop() lands inside `backtrack_qub`
+            kw.update(S.init_sweep_overrides(rng))
         kw.update(over)
         base = gen_run(rng, stop=False, **kw)
         out, rc, err = C.run_lines(exe, [base.line()])
